@@ -70,8 +70,8 @@ def _c10_workloads(ctx):
     quick = ctx.tier == "quick"
     out = []
     plans = [(4, '{"d1","R"}', '{"d1"}', 2, 110)] if quick else \
-            [(4, '{"d1","R"}', '{"d1"}', 2, None), (5, '{"d1","R"}', '{"d1"}', 2, 700), (6, '{"d1","R"}', '{"d1"}', 3, 900),
-             (4, '{"d1","d2","R"}', '{"d1","d2"}', 1, 500)]
+            [(4, '{"d1","R"}', '{"d1"}', 2, None), (5, '{"d1","R"}', '{"d1"}', 2, 220), (6, '{"d1","R"}', '{"d1"}', 3, 160),
+             (4, '{"d1","d2","R"}', '{"d1","d2"}', 1, 120)]
     for (ln, dev, snd, ms, limit) in plans:
         r = ctx.tlc("GenRatchetStore", "Gen_RatchetStore.cfg", name="gen_L%d_%d" % (ln, len(snd)), workers=1 if quick else 4,
                     consts={"MaxLen": str(ln), "MaxOps": str(ln), "Dev": dev, "Senders": snd, "MaxSent": str(ms)}, timeout=1500, heap="6g")
@@ -79,7 +79,7 @@ def _c10_workloads(ctx):
         sc = vf.scripts_from_tlc(hs, limit=limit, rng=ctx.rng)
         out += [s["steps"] for s in sc]
     # longer random walks, two senders
-    for (ln, num) in ([(6, 60)] if quick else [(6, 700), (8, 500)]):
+    for (ln, num) in ([(6, 60)] if quick else [(6, 120), (8, 90)]):
         r = ctx.tlc("GenRatchetStore", "Gen_RatchetStore.cfg", name="sim_L%d" % ln, workers=1, simulate="num=%d" % num, depth=ln * 8 + 10,
                     consts={"MaxLen": str(ln), "MaxOps": str(ln), "Dev": '{"d1","d2","R"}', "Senders": '{"d1","d2"}', "MaxSent": "3"},
                     timeout=1500, heap="6g")
@@ -169,6 +169,22 @@ def _validate_blocks2(ctx, events, name, conf_consts, max_rejects=3):
     return len(cur), rejects
 
 
+def _selftest(ctx, mon, name, block, corrupt):
+    """binding is demonstrated, not assumed: the monitor must accept the recorded block and reject a corrupted copy"""
+    d = ctx.sub("selftest_" + name)
+    good, bad = os.path.join(d, "good.ndjson"), os.path.join(d, "bad.ndjson")
+    vf.write_ndjson(good, block)
+    cb = corrupt(json.loads(json.dumps(block)))
+    if cb is None:
+        return
+    vf.write_ndjson(bad, cb)
+    ok1, _ = ctx.validate_trace(mon[0], mon[1], good, name="selftest_%s_good" % name, timeout=600)
+    ok2, _ = ctx.validate_trace(mon[0], mon[1], bad, name="selftest_%s_bad" % name, timeout=600)
+    if not ok1 or ok2:
+        raise vf.Infra("monitor self-test failed (%s): accepted good=%s, accepted corrupted=%s" % (name, ok1, ok2))
+    ctx.extra.setdefault("selftests", []).append(name)
+
+
 def _split_keep_reset(events):
     out, cur, cid = [], None, None
     for e in events:
@@ -210,6 +226,15 @@ def run_c10(ctx, replay=None):
     blocks = _split_keep_reset(events)
     if {_sid(b) for b, _ in blocks} != set(byid):
         raise vf.Infra("driver did not record every workload")
+    if not replay:
+        def corrupt10(b):
+            for e in b:
+                if e.get("ev") == "probes" and e.get("phase") == "post":
+                    e["open"] = []
+            return b
+        cand = [evs for _, evs in blocks if any(e.get("ev") == "probes" and e.get("phase") == "pre" and e.get("open") for e in evs)]
+        if cand:
+            _selftest(ctx, MON, "c10_lost_key", cand[0], corrupt10)
     nblocks = len(blocks)
     torn = sum(1 for _, evs in blocks if any(e.get("crashed") and e.get("muts") for e in evs))
     crashed = sum(1 for _, evs in blocks if any(e.get("ev") == "crash" for e in evs))
@@ -318,6 +343,14 @@ def run_c09(ctx, replay=None):
     blocks = _split_keep_reset(events)
     if {_sid(b) for b, _ in blocks} != set(byid):
         raise vf.Infra("driver did not record every run")
+    if not replay:
+        def corrupt09(b):
+            rets = [e for e in b if e.get("ev") == "tret"]
+            if len(rets) < 2:
+                return None
+            rets[-1]["k"] = rets[0]["k"]
+            return b
+        _selftest(ctx, MON, "c09_duplicate_counter", blocks[0][1], corrupt09)
     groups = {}
     for bid, evs in blocks:
         c = byid[_sid(bid)]["cfg"]
